@@ -77,7 +77,7 @@ Lemma Good_glue c : glue_ok (Good c).
 Proof.
   constructor.
   - intros; apply Good_emit; auto.
-  - intros; apply Good_upd; auto.
+  - intros c0 f w [Hf _] H; apply Good_upd; auto.
   - intros n w H; eapply Good_frame; [| |exact H]; reflexivity.
   - intros n w H; eapply Good_frame; [| |exact H]; reflexivity.
   - intros n w H; eapply Good_frame; [| |exact H]; reflexivity.
